@@ -59,6 +59,11 @@ def dec(v):
     if isinstance(v, list):
         return [dec(i) for i in v]
     if isinstance(v, dict):
+        if '__deep__' in v:
+            x = []
+            for _ in range(int(v['__deep__'])):
+                x = [x]          # nested far deeper than repr / pickle / hash can recurse
+            return x
         if '__od__' in v:
             return collections.OrderedDict((dec(k), dec(x)) for k, x in v['__od__'])
         if '__dd__' in v:
